@@ -48,8 +48,9 @@ CHECKS["C09"] = dict(
           "boundary half-edges form a permutation of the boundary vertices the walk terminates within its fuel and returns simple "
           "cycles that together use every boundary half-edge exactly once; closed -> [], non-manifold / unoriented -> ValueError. "
           "All queries are tied to the code by exact correspondence over all 4-vertex and (thorough) all 58 848 five-vertex "
-          "complexes plus structured families, with brute-force oracles. Not proved: that one outgoing boundary edge per boundary "
-          "vertex implies one incoming one (the permutation hypothesis is stated directly)."),
+          "complexes plus structured families, with brute-force oracles. Also proved (LoopsDegP): in an oriented mesh every vertex has "
+          "as many incoming as outgoing boundary half-edges, so the permutation hypothesis follows from 'no vertex has two outgoing "
+          "boundary half-edges' alone - the loop theorem holds under exactly the hypothesis the property states."),
     design="6/C09", technique="Coq proof (counting lemmas over key lists, cycle-walk invariant) + exhaustive small-complex correspondence via vm_compute")
 
 CHECKS["C10"] = dict(
